@@ -1,0 +1,124 @@
+//go:build verif
+
+// Contracts for package parser, checked by /verif (goverif). Comment-only file: it is
+// compiled only under the build tag `verif` and contains no executable code.
+package parser
+
+// ---------------------------------------------------------------- formatter
+
+//@ methods (*PacketDslFormattor)
+//@   requires self != nil && self.tokenStream != nil && self.lineComments != nil
+
+//@ func (*PacketDslFormattor).getHiddenLeft
+//@   requires istoken(token)
+
+//@ func (*PacketDslFormattor).getHiddenRightAtSameLine
+//@   requires istoken(token)
+
+//@ func (*PacketDslFormattor).VisitPacket
+//@   ensures typeis(result, string)
+//@ func (*PacketDslFormattor).VisitPacketDefinition
+//@   ensures typeis(result, string)
+//@ func (*PacketDslFormattor).VisitFieldDefinitionWithAttribute
+//@   ensures typeis(result, string)
+//@ func (*PacketDslFormattor).VisitLengthOfAttribute
+//@   ensures typeis(result, string)
+//@ func (*PacketDslFormattor).VisitCalculatedFromAttribute
+//@   ensures typeis(result, string)
+//@ func (*PacketDslFormattor).VisitPaddingAttribute
+//@   ensures typeis(result, string)
+//@ func (*PacketDslFormattor).VisitOptionDefinition
+//@   ensures typeis(result, string)
+//@ func (*PacketDslFormattor).VisitOptionDeclaration
+//@   ensures typeis(result, string)
+//@ func (*PacketDslFormattor).VisitFieldDefinition
+//@   requires isnode(ctx, fieldDefinition)
+//@   ensures typeis(result, string)
+//@   decreases 2*depth(ctx) + 1
+//@ func (*PacketDslFormattor).VisitInerObjectField
+//@   ensures typeis(result, string)
+//@   decreases 2*depth(ctx)
+//@ func (*PacketDslFormattor).VisitMetaDataDefinition
+//@   ensures typeis(result, string)
+//@ func (*PacketDslFormattor).VisitLengthFieldDeclaration
+//@   ensures typeis(result, string)
+//@ func (*PacketDslFormattor).VisitCheckSumFieldDeclaration
+//@   ensures typeis(result, string)
+//@ func (*PacketDslFormattor).VisitMetaDataDeclaration
+//@   ensures typeis(result, string)
+//@ func (*PacketDslFormattor).VisitRefMetaDataDeclaration
+//@   ensures typeis(result, string)
+//@ func (*PacketDslFormattor).VisitMatchFieldDeclaration
+//@   ensures typeis(result, string)
+//@ func (*PacketDslFormattor).VisitTerminal
+//@   requires istermnode(node)
+//@   ensures typeis(result, string)
+
+//@ func AddIndent
+//@   requires 0 <= spaces && spaces <= 1024
+
+//@ func formatStringList
+//@   requires itemsPerLine > 0
+
+// ---------------------------------------------------------------- parse tree -> model visitor
+
+//@ pred visitorOK(v *PacketDslVisitorImpl) := v != nil && model.modelOK(v.BinModel) && model.metaWF(v.BinModel)
+
+//@ pred attrOK(a model.FieldAttribute) := model.attrKind(a) && (typeis(a, *model.LengthFieldAttribute) ==> unbox(a, *model.LengthFieldAttribute).TragetField != nil) && (typeis(a, *model.MatchFieldAttribute) ==> unbox(a, *model.MatchFieldAttribute).MatchKeyField != nil) && (typeis(a, *model.ObjectFieldAttribute) ==> (unbox(a, *model.ObjectFieldAttribute).IsIner ==> unbox(a, *model.ObjectFieldAttribute).RefPacket != nil))
+//@ pred fieldOK(f *model.Field) := f != nil && attrOK(f.Attr)
+//@ pred isField(r interface{}) := typeis(r, *model.Field) && fieldOK(unbox(r, *model.Field))
+
+//@ methods (*PacketDslVisitorImpl)
+//@   requires visitorOK(self)
+
+//@ func NewPacketDslVisitor
+//@   ensures visitorOK(result) && fresh(result) && len(result.BinModel.Packets) == 0
+
+//@ func (*PacketDslVisitorImpl).metaDataDeclarationToMetaData
+//@   ensures typeis(result, model.MetaData) && model.metaAttr(unbox(result, model.MetaData).Attr)
+
+//@ func (*PacketDslVisitorImpl).VisitRefMetaDataDeclaration
+//@   ensures typeis(result, model.MetaData) && model.metaAttr(unbox(result, model.MetaData).Attr)
+
+//@ func (*PacketDslVisitorImpl).VisitPacket
+//@   requires len(v.BinModel.Packets) == 0
+//@   ensures typeis(result, *model.BinaryModel)
+//@   loop 0 invariant model.metaWF(v.BinModel)
+//@   loop 1 invariant model.metaWF(v.BinModel)
+//@   loop 4 invariant model.packetsNonNil(v.BinModel)
+
+//@ func (*PacketDslVisitorImpl).VisitPacketDefinition
+//@   ensures typeis(result, *model.Packet) && unbox(result, *model.Packet) != nil && model.fieldsNonNil(unbox(result, *model.Packet))
+
+//@ func (*PacketDslVisitorImpl).VisitFieldDefinitionWithAttribute
+//@   ensures isField(result)
+
+//@ func (*PacketDslVisitorImpl).VisitFieldDefinition
+//@   requires isnode(ctx, fieldDefinition)
+//@   ensures isField(result)
+//@   decreases 2*depth(ctx) + 1
+
+//@ func (*PacketDslVisitorImpl).VisitInerObjectField
+//@   ensures isField(result)
+//@   decreases 2*depth(ctx)
+
+//@ func (*PacketDslVisitorImpl).VisitLengthFieldDeclaration
+//@   ensures isField(result)
+
+//@ func (*PacketDslVisitorImpl).VisitCheckSumFieldDeclaration
+//@   ensures isField(result)
+
+//@ func (*PacketDslVisitorImpl).metaDataDeclarationToField
+//@   ensures isField(result)
+
+//@ func (*PacketDslVisitorImpl).VisitMatchFieldDeclaration
+//@   ensures isField(result)
+
+//@ func (*PacketDslVisitorImpl).VisitMatchPair
+//@   ensures typeis(result, []model.MatchPair)
+
+//@ func ParseFile
+//@   ensures err == nil ==> typeis(result0, *model.BinaryModel)
+
+//@ methods (*SyntaxErrorListener)
+//@   requires self != nil
